@@ -46,9 +46,10 @@ def cnum(s):
 class World:
     """GitHub's and Batch's truth.  Only the driver (environment actions, served requests) changes it."""
 
-    def __init__(self, prs, maxc):
+    def __init__(self, prs, maxc, page_size=1):
         self.prs = tuple(sorted(prs))
         self.maxc = maxc
+        self.page_size = page_size     # contexts per page of the status query (GitHub: what the query asks for, 10)
         self.T = 1
         self.npush = 0
         self.head = {n: 1 for n in prs}
@@ -159,9 +160,13 @@ def make_classes(mod):
             if path == "/graphql":
                 q = data["query"]
                 n = int(re.search(r"pullRequest \(number: (\d+)\)", q).group(1))
-                assert "after:" not in q, "single page expected"
+                assert "first: 10" in q, q
+                m = re.search(r'after: "(\d+)"', q)
+                cur = int(m.group(1)) if m else 0
+                assert ("after:" in q) == (m is not None), q
 
                 def serve():
+                    # answered for the head of this moment; contexts in GitHub's fixed order, one page of them
                     h = w.head[n]
                     nodes = []
                     if w.ext[n][h] != "absent":
@@ -170,7 +175,10 @@ def make_classes(mod):
                     if w.ci[n][h] != "absent":
                         nodes.append({"__typename": "StatusContext", "context": mod.GITHUB_STATUS_CONTEXT,
                                       "state": w.ci[n][h].upper(), "isRequired": True})
-                    rollup = None if not nodes else {"contexts": {"nodes": nodes, "pageInfo": {"endCursor": "x", "hasNextPage": False}}}
+                    ps = min(10, w.page_size)
+                    page = nodes[cur:cur + ps]
+                    rollup = None if not nodes else {"contexts": {"nodes": page, "pageInfo": {
+                        "endCursor": str(cur + len(page)), "hasNextPage": len(nodes) > cur + ps}}}
                     rd = None if w.rev[n] == "API_NONE" else w.rev[n]
                     return {"data": {"repository": {"pullRequest": {
                         "reviewDecision": rd, "commits": {"nodes": [{"commit": {"statusCheckRollup": rollup}}]}}}}}
@@ -249,12 +257,12 @@ def patch_module(mod):
 class Impl:
     """World + the real WatchedBranch + the driver."""
 
-    def __init__(self, mod, prs, maxc):
+    def __init__(self, mod, prs, maxc, page_size=1):
         patch_module(mod)
         self.mod = mod
         self.P = tuple(sorted(prs))
         self.maxc = maxc
-        self.w = World(prs, maxc)
+        self.w = World(prs, maxc, page_size)
         self.w.merged_log = []
         _FB, FBC, FGH, FDB = make_classes(mod)
         self.gh, self.bc, self.db = FGH(self.w), FBC(self.w), FDB()
